@@ -90,6 +90,11 @@ CHECKS = {
    technique="programs: schema families generated by gengo.Generate from the working tree and compiled (failure = violation); inputs: the C09 mutation closure; lock-step differential execution of bindnode and generated code",
    text="Every family in the generator's feature set must generate and compile; on every input of the C09 space bindnode and the generated code must agree on accept/reject, on both views and on the dag-cbor bytes, and neither may panic.",
    note="Pure differential oracle (shared mistakes are C08/C09's business). Enum, Any and listpairs are outside the generator's feature set."),
+ "C19": dict(
+   category="model_checking", design_ref="DESIGN.md §5 C19",
+   technique="enumeration of a declared Go-type vocabulary × boundary values (wrap view, build+unwrap, marshal/unmarshal ×2 codecs, every out-of-width integer) plus exhaustive enumeration of binding-call histories (depth 2/3 over 15 calls), each history executed in its own subprocess and compared call-by-call with first-call results",
+   text="For every declared Go type and boundary value the wrapped node must read as an independently written view of the Go value, rebuilding and unwrapping must reproduce it, and codec round trips into a fresh value must reproduce it; every integer that does not fit its Go field must be an error; every history of Wrap/Prototype/Marshal/Unmarshal calls with explicit, inferred and Go-only arguments must succeed with the results the same call gives in a fresh process.",
+   note="Views are hand-written per Go type (no reflection shared with bindnode). dag-json skips values with integral floats (C04 finding). Inference histories use struct/list/scalar types only (what inferSchema supports)."),
 }
 
 NOT_YET = "check not built yet in this round (planned in DESIGN.md §5; will be claimed when its explorer exists)"
